@@ -139,8 +139,15 @@ fn run_one(rec: &Value) -> Value {
                 let shared = SharedCompilerResource::new(cfg.clone());
                 let mut b = PackageBuilder::new(cfg, shared);
                 match b.build(src.clone(), "exec") {
-                    Ok(art) => json!({"ok": true, "errors": [], "nwarns": art.warns.len(),
-                                      "warns": errs_json(&art.warns, false)}),
+                    Ok(art) => {
+                        let mut v = json!({"ok": true, "errors": [], "nwarns": art.warns.len(),
+                                           "warns": errs_json(&art.warns, false)});
+                        if rec["hir"].as_bool().unwrap_or(false) {
+                            // the typed tree, as `erg --mode typecheck` prints it
+                            v["hir"] = json!(format!("{}", art.object));
+                        }
+                        v
+                    }
                     Err(art) => json!({"ok": false, "errors": errs_json(&art.errors, render), "nwarns": art.warns.len()}),
                 }
             }
